@@ -118,59 +118,73 @@ theorem order_by_returns_a_permutation (order : List OrderItem) (rows : List Row
   sortBy_perm _ rows
 
 /-- … in an order in which no row is greater (by the ORDER BY items, first deciding item wins) than a later
-    one, for every direction, NULLS placement and number of items — on every answer whose rows the comparator
-    orders consistently (`consistent`: no sort column that is missing in one row and NULL in another; rows of one
-    table and of inner / cross / natural joins always are), -/
-theorem order_by_result_is_sorted (order : List OrderItem) (rows : List Row)
-    (h : consistent order rows = true) :
-    (sortRows order rows).Pairwise (fun a b => cmpRows order a b ≠ .gt) := by
-  have hs := sortBy_sorted _ (law_cmpRowsN order) rows
-  rw [← sortRows_eq_sortBy_cmpRowsN order rows h] at hs
-  unfold Sorted at hs
-  have hmem : ∀ x, x ∈ sortRows order rows → x ∈ rows := fun x hx => (sortBy_perm _ rows).mem_iff.mp hx
-  refine List.Pairwise.imp_of_mem ?_ hs
-  intro a b ha hb hab
-  rw [cmpRows_eq_cmpRowsN order rows h a b (hmem a ha) (hmem b hb)]
-  exact hab
-
-example : consistent [{ col := 0, desc := true, nulls := some true }]
-    [⟨0, [(0, some 2)]⟩, ⟨1, [(0, none)]⟩, ⟨2, [(0, some 1)]⟩] = true := by decide
+    one, for every direction, NULLS placement and number of items — on EVERY answer of the engine call, the rows
+    of LEFT / RIGHT / FULL joins included (a sort column may be missing in one row and NULL in another: since
+    /repo 1133d8d8 both follow the NULLS FIRST / LAST rule), -/
+theorem order_by_result_is_sorted (order : List OrderItem) (rows : List Row) :
+    (sortRows order rows).Pairwise (fun a b => cmpRows order a b ≠ .gt) :=
+  sortBy_sorted _ (law_cmpRows order) rows
 
 /-- … and rows that tie on every item keep the order the engine returned them in (the sort is stable), which
     makes the ordered list — and so every LIMIT / OFFSET window of it — a function of the statement and the
     engine's answer. -/
-theorem order_by_keeps_ties_in_engine_order (order : List OrderItem) (rows : List Row)
-    (h : consistent order rows = true) (r : Row) (hr : r ∈ rows) :
+theorem order_by_keeps_ties_in_engine_order (order : List OrderItem) (rows : List Row) (r : Row) :
     (sortRows order rows).filter (fun x => cmpRows order r x == .eq)
       = rows.filter (fun x => cmpRows order r x == .eq) := by
-  have hmem : ∀ x, x ∈ sortRows order rows → x ∈ rows := fun x hx => (sortBy_perm _ rows).mem_iff.mp hx
-  have e1 : (sortRows order rows).filter (fun x => cmpRows order r x == .eq)
-      = (sortRows order rows).filter (fun x => cmpRowsN order r x == .eq) :=
-    List.filter_congr (fun x hx => by rw [cmpRows_eq_cmpRowsN order rows h r x hr (hmem x hx)])
-  have e2 : rows.filter (fun x => cmpRows order r x == .eq) = rows.filter (fun x => cmpRowsN order r x == .eq) :=
-    List.filter_congr (fun x hx => by rw [cmpRows_eq_cmpRowsN order rows h r x hr hx])
-  rw [e1, e2, sortRows_eq_sortBy_cmpRowsN order rows h]
+  unfold sortRows
   apply sortBy_filter
   intro a b ha hb
-  have ha' : cmpRowsN order r a = .eq := by simpa using ha
-  have hb' : cmpRowsN order r b = .eq := by simpa using hb
-  have L := law_cmpRowsN order
+  have ha' : cmpRows order r a = .eq := by simpa using ha
+  have hb' : cmpRows order r b = .eq := by simpa using hb
+  have L := law_cmpRows order
   rw [← L.eqCongr r a b ha', hb']; simp
 
-/-- On such rows the closure `sort_rows` hands to `sort_by` is a total preorder (what `sort_by` requires): it is
-    the lawful comparator of the normalised keys. -/
-theorem order_by_comparator_is_a_total_preorder_on_consistent_rows (order : List OrderItem) (rows : List Row)
-    (h : consistent order rows = true) :
-    Law (cmpRowsN order) ∧ ∀ a ∈ rows, ∀ b ∈ rows, cmpRows order a b = cmpRowsN order a b :=
-  ⟨law_cmpRowsN order, fun a ha b hb => cmpRows_eq_cmpRowsN order rows h a b ha hb⟩
+/-- The closure `sort_rows` hands to `sort_by` is a total preorder (what `sort_by` requires: with anything else it
+    may panic) for every ORDER BY list and on ALL rows — antisymmetric up to `swap`, transitive, and `Equal` is a
+    congruence.  (Until /repo 1133d8d8 this held on `consistent` rows only.) -/
+theorem order_by_comparator_is_a_total_preorder (order : List OrderItem) : Law (cmpRows order) :=
+  law_cmpRows order
 
-/-- The code as it is (candidate finding, reported as an observation; on the real code a 24-row LEFT JOIN makes
-    `sort_by` panic): a sort column that is missing in one row (outer join, no partner) and NULL in another is
-    compared `Greater` BOTH ways round — the closure is not an order. -/
+/-- ORDER BY returns a sorted permutation of the engine's answer for every join result: the two statements above
+    together, with the rows the repair is about as the non-vacuity example (u.a = column 3 is missing in the row
+    without partner, NULL in the row of the NULL = NULL partners, a value in the third). -/
+theorem order_by_returns_a_sorted_permutation (order : List OrderItem) (rows : List Row) :
+    (sortRows order rows).Perm rows ∧ (sortRows order rows).Pairwise (fun a b => cmpRows order a b ≠ .gt) :=
+  ⟨sortBy_perm _ rows, order_by_result_is_sorted order rows⟩
+
+example : mixedCol [⟨0, [(0, some 4)]⟩, ⟨1, [(0, none), (3, none)]⟩, ⟨2, [(0, some 1), (3, some 1)]⟩] 3 = true
+    ∧ sortRows [{ col := 3, desc := true, nulls := none }]
+        [⟨0, [(0, some 4)]⟩, ⟨1, [(0, none), (3, none)]⟩, ⟨2, [(0, some 1), (3, some 1)]⟩]
+      = [⟨0, [(0, some 4)]⟩, ⟨1, [(0, none), (3, none)]⟩, ⟨2, [(0, some 1), (3, some 1)]⟩] := by decide
+
+/-- A missing sort column and a NULL sort column tie, whatever the direction and the NULLS clause. -/
+theorem missing_and_null_sort_keys_tie (it : OrderItem) (a b : Row)
+    (ha : a.get it.col = .absent) (hb : b.get it.col = .null) :
+    cmpItem it a b = .eq ∧ cmpItem it b a = .eq := by
+  unfold cmpItem
+  rw [ha, hb]
+  cases it.desc <;> exact ⟨rfl, rfl⟩
+
+example : (⟨0, []⟩ : Row).get 0 = .absent ∧ (⟨1, [(0, none)]⟩ : Row).get 0 = .null := by decide
+
+/-- The code as it was before /repo 1133d8d8 (known_findings: fixed,
+    `query_router::QueryRouter::exec_select_with_joins/order_by_panics_on_outer_join_rows`; on the real code a 21-row
+    LEFT JOIN made `sort_by` panic): a sort column that is missing in one row (outer join, no partner) and NULL in
+    another was compared `Greater` BOTH ways round — the closure was not an order. -/
 theorem order_by_comparator_is_not_an_order_on_outer_join_rows_witness :
     ∃ (it : OrderItem) (a b : Row), a.get it.col = .absent ∧ b.get it.col = .null
-      ∧ cmpItem it a b = .gt ∧ cmpItem it b a = .gt :=
+      ∧ cmpItemOld it a b = .gt ∧ cmpItemOld it b a = .gt :=
   ⟨{ col := 0, desc := false, nulls := none }, ⟨0, []⟩, ⟨1, [(0, none)]⟩, by decide⟩
+
+/-- … and that pair of cells is the ONLY thing the repair changed: on every answer without a sort column that is
+    missing in one row and NULL in another (`consistent`: rows of one table, of inner / cross / natural joins, of
+    outer joins without NULL in the sort column) the statement returns what it returned before. -/
+theorem order_by_repair_changes_nothing_on_consistent_rows (order : List OrderItem) (rows : List Row)
+    (h : consistent order rows = true) : sortRowsOld order rows = sortRows order rows :=
+  sortRowsOld_eq_sortRows order rows h
+
+example : consistent [{ col := 0, desc := true, nulls := some true }]
+    [⟨0, [(0, some 2)]⟩, ⟨1, [(0, none)]⟩, ⟨2, [(0, some 1)]⟩] = true := by decide
 
 /-- Without ORDER BY the rows stay in the engine's order. -/
 theorem no_order_by_keeps_engine_order (s : Sel) (base : List Row) (h : s.order = []) :
@@ -194,19 +208,18 @@ example : (⟨0, [(0, some 3)]⟩ : Row).get 0 = .val 3 := by decide
     places the NULLs; default NULLS LAST under ASC and NULLS FIRST under DESC) for every item that is ascending
     or has no NULLS clause. -/
 theorem order_by_item_agrees_with_its_meaning (it : OrderItem) (h : it.desc = false ∨ it.nulls = none)
-    (a b : Row) (hc : (a.get it.col).clash (b.get it.col) = false) : cmpItem it a b = cmpItemSpec it a b := by
+    (a b : Row) : cmpItem it a b = cmpItemSpec it a b := by
   unfold cmpItem cmpItemSpec
   rcases h with h | h
   · rw [h]
     cases ha : a.get it.col <;> cases hb : b.get it.col <;> cases it.nulls <;>
-      simp [cmpNulls, ha, hb, Cell.clash] at hc ⊢
+      simp [cmpNulls, Cell.filterNull]
   · rw [h]
     cases hd : it.desc <;> cases ha : a.get it.col <;> cases hb : b.get it.col <;>
-      simp [cmpNulls, Ordering.swap, ha, hb, Cell.clash] at hc ⊢
+      simp [cmpNulls, Cell.filterNull, Ordering.swap]
 
 example : (({ col := 0, desc := true, nulls := none } : OrderItem).desc = false
-    ∨ ({ col := 0, desc := true, nulls := none } : OrderItem).nulls = none)
-    ∧ ((⟨0, [(0, none)]⟩ : Row).get 0).clash ((⟨1, [(0, some 4)]⟩ : Row).get 0) = false := by decide
+    ∨ ({ col := 0, desc := true, nulls := none } : OrderItem).nulls = none) := by decide
 
 /-- The code as it is (candidate finding, reported as an observation): under DESC the whole comparison is
     reversed, the placement of NULLs included, so `DESC NULLS FIRST` puts the NULLs LAST. -/
